@@ -74,13 +74,17 @@ def make_file(rng, n, tts, mode, gaps):
     support = sorted({nodes[u][0] for u in reach}, key=lambda v: pos[v])
     if not support:
         return None
+    by_pos = list(support)
     # permutation ids: positions in the full order (gaps when some variables are not in the support)
     nvars = n + (rng.randint(0, 3) if gaps else 0)
     permid = {v: pos[v] for v in support}
     if gaps:
         # spread positions
         spread = sorted(rng.sample(range(nvars), len(support)))
-        permid = {v: spread[k] for k, v in enumerate(support)}
+        permid = {v: spread[k] for k, v in enumerate(by_pos)}
+    # the file may list the support variables in any order (e.g. by index,
+    # after a reordering the permids are then not increasing)
+    rng.shuffle(support)
     var_id = {v: rng.randrange(0, 40) for v in support}
     while len(set(var_id.values())) < len(support):
         var_id = {v: rng.randrange(0, 40) for v in support}
